@@ -2,6 +2,8 @@ package props
 
 import (
 	"fmt"
+	"math/rand/v2"
+	"os"
 	"time"
 
 	"github.com/google/uuid"
@@ -103,10 +105,88 @@ func vamanaCases(prop string, tier string, seed uint64) []fw.Case {
 }
 
 func (c03) Cases(tier string, seed uint64) []fw.Case { return vamanaCases("C03", tier, seed) }
-func (c10) Cases(tier string, seed uint64) []fw.Case { return vamanaCases("C10", tier, seed) }
+func (c10) Cases(tier string, seed uint64) []fw.Case {
+	cs := vamanaCases("C10", tier, seed)
+	// many fresh graphs built by ONE insert batch each, with vectors of a dimension at which nodes really
+	// reach the degree bound: the insert workers of a batch run concurrently, so whether the bound holds
+	// is a matter of scheduling; every batch is a new try
+	n, rounds := 6, 60
+	if tier == "thorough" {
+		n, rounds = 16, 120
+	}
+	for i := 0; i < n; i++ {
+		cs = append(cs, fw.Case{Seed: fw.CaseSeed(seed, "C10race", i), Name: fmt.Sprintf("concurrent-insert-batches%d", i), Params: map[string]any{"race_rounds": rounds}})
+	}
+	return cs
+}
 
 func (c03) RunCase(c fw.Case, env *fw.Env) *fw.CaseResult { return runVamana(c, env, "C03") }
-func (c10) RunCase(c fw.Case, env *fw.Env) *fw.CaseResult { return runVamana(c, env, "C10") }
+func (c10) RunCase(c fw.Case, env *fw.Env) *fw.CaseResult {
+	if c.Int("race_rounds", 0) > 0 {
+		return c10InsertRace(c, env)
+	}
+	return runVamana(c, env, "C10")
+}
+
+// c10InsertRace: see Cases. After each single-batch build the raw dump is judged by the same invariants.
+func c10InsertRace(c fw.Case, env *fw.Env) *fw.CaseResult {
+	res := fw.NewResult()
+	rng := rand.New(rand.NewPCG(c.Seed, 10))
+	for round := 0; round < c.Int("race_rounds", 40); round++ {
+		dim := []int{16, 12, 24}[round%3]
+		degree := []int{32, 32, 48}[round%3]
+		alpha := []float32{1.5, 1.2, 1.5}[rng.IntN(3)]
+		vc := vecConfig{Name: "race", Metric: models.DistanceEuclidean, Dim: dim, Quant: "none"}
+		schema := vectorSchema("vamana", vc, 50, degree, alpha)
+		sv := schema["v"]
+		path := shardPath(env, fmt.Sprintf("race%d", round))
+		s, err := sx.Open(path, schema, cache.NewManager(-1), 0)
+		if err != nil {
+			res.Inconclusive++
+			return res
+		}
+		g := gen.New(c.Seed+uint64(round), schema)
+		g.NoLattice = true
+		g.PresentProb = 1
+		g.ExtraProb = 0
+		n := []int{100, 150, 300, 120}[rng.IntN(4)]
+		op := gen.Op{Kind: gen.OpInsert, Tag: fmt.Sprintf("single-batch-%d", n)}
+		for i := 0; i < n; i++ {
+			op.Points = append(op.Points, model.Point{Id: g.NewId(), Doc: g.Doc()})
+		}
+		m := model.New()
+		ok, _ := applyOp(res, "C10", s, m, op, round)
+		if !ok {
+			s.Close()
+			return res
+		}
+		dump, err := sx.DumpStore(s.Shard.VerifDiskStore(), schema)
+		s.Close()
+		os.RemoveAll(path)
+		if err != nil {
+			res.Violate("dump-error", "C10:dump", err.Error(), nil)
+			return res
+		}
+		probs, nodes, _ := graphInvariants(dump, "v", sv, m)
+		res.Eval(nodes >= 20, "race", c.Seed, round)
+		res.Stat("single_batch_graphs", 1)
+		gv := dump.Graph(indexBucket("v", sv))
+		full := 0
+		for id, e := range gv.Edges {
+			if id != 1 && len(e) >= degree {
+				full++
+			}
+		}
+		res.Stat("nodes_at_the_degree_bound", int64(full))
+		for _, p := range probs {
+			res.Violate("graph-"+p.kind, "C10:"+p.kind, fmt.Sprintf("graph built by one insert batch of %d %d-dimensional points (degree bound %d, alpha %g), round %d: %s", n, dim, degree, alpha, round, p.msg), nil)
+		}
+		if len(res.Violations) > 6 {
+			break
+		}
+	}
+	return res
+}
 
 // graphInvariants evaluates C10's statement on a dump.
 func graphInvariants(d *sx.Dump, prop string, sv models.IndexSchemaValue, m *model.Model) (problems []problem, nodes int, dupEdges int) {
